@@ -110,6 +110,9 @@ type Options struct {
 	PadHex int
 	// GapEdit rewrites the bytes "<hex>" AFTER signing (whitespace, case...); it must keep the length.
 	Lower bool // write the hex digits in lower case
+	// FixedCMS, when set, is written into /Contents as is (nothing is signed): used for forged
+	// documents that re-use somebody else's CMS.
+	FixedCMS []byte
 	// SigAfter places the signature dictionary as the last object (behind the page objects).
 }
 
@@ -151,6 +154,9 @@ func Build(s *Signer, o Options) (*Doc, error) {
 		return nil, err
 	}
 	hexLen := 2*len(probe) + o.PadHex
+	if o.FixedCMS != nil {
+		hexLen = 2*len(o.FixedCMS) + o.PadHex
+	}
 
 	var buf bytes.Buffer
 	offs := map[int]int{}
@@ -201,12 +207,17 @@ func Build(s *Signer, o Options) (*Doc, error) {
 	}
 	copy(b[brStart:], txt)
 	dg := sha256.Sum256(Lenient(b, r))
-	cms, err := s.CMS(Lenient(b, r))
-	if err != nil {
-		return nil, err
-	}
-	if len(cms) != len(probe) {
-		return nil, fmt.Errorf("CMS size changed: %d vs %d", len(cms), len(probe))
+	var cms []byte
+	if o.FixedCMS != nil {
+		cms = o.FixedCMS
+	} else {
+		cms, err = s.CMS(Lenient(b, r))
+		if err != nil {
+			return nil, err
+		}
+		if len(cms) != len(probe) {
+			return nil, fmt.Errorf("CMS size changed: %d vs %d", len(cms), len(probe))
+		}
 	}
 	hx := strings.ToUpper(hex.EncodeToString(cms)) + strings.Repeat("0", o.PadHex)
 	if o.Lower {
@@ -233,4 +244,101 @@ func Increment(b []byte, note string) []byte {
 	fmt.Fprintf(&buf, "xref\n%d 1\n%010d 00000 n \n", size, off)
 	fmt.Fprintf(&buf, "trailer\n<< /Size %d /Root 1 0 R /Prev %d >>\nstartxref\n%d\n%%%%EOF\n", size+1, prevOff, xref)
 	return buf.Bytes()
+}
+
+// ---- DER surgery: attach eContent to an existing SignedData without any key ----
+
+type tlv struct {
+	tag  byte
+	body []byte
+	raw  []byte
+}
+
+func readTLV(b []byte) (t tlv, rest []byte, err error) {
+	if len(b) < 2 {
+		return t, nil, fmt.Errorf("der: short")
+	}
+	t.tag = b[0]
+	n := int(b[1])
+	h := 2
+	if n == 0x80 {
+		return t, nil, fmt.Errorf("der: indefinite length")
+	}
+	if n > 0x80 {
+		k := n & 0x7f
+		if k > 4 || len(b) < 2+k {
+			return t, nil, fmt.Errorf("der: bad length")
+		}
+		n = 0
+		for i := 0; i < k; i++ {
+			n = n<<8 | int(b[2+i])
+		}
+		h = 2 + k
+	}
+	if len(b) < h+n {
+		return t, nil, fmt.Errorf("der: truncated")
+	}
+	t.body = b[h : h+n]
+	t.raw = b[:h+n]
+	return t, b[h+n:], nil
+}
+
+func encTLV(tag byte, body []byte) []byte {
+	n := len(body)
+	out := []byte{tag}
+	switch {
+	case n < 0x80:
+		out = append(out, byte(n))
+	case n < 1<<8:
+		out = append(out, 0x81, byte(n))
+	case n < 1<<16:
+		out = append(out, 0x82, byte(n>>8), byte(n))
+	case n < 1<<24:
+		out = append(out, 0x83, byte(n>>16), byte(n>>8), byte(n))
+	default:
+		out = append(out, 0x84, byte(n>>24), byte(n>>16), byte(n>>8), byte(n))
+	}
+	return append(out, body...)
+}
+
+// InjectContent returns cms (a ContentInfo/SignedData, trailing padding ignored) with content
+// attached as eContent; everything else (certificates, signer infos, signature) is untouched.
+func InjectContent(cms, content []byte) ([]byte, error) {
+	outer, _, err := readTLV(cms)
+	if err != nil || outer.tag != 0x30 {
+		return nil, fmt.Errorf("der: outer: %v", err)
+	}
+	oid, rest, err := readTLV(outer.body)
+	if err != nil || oid.tag != 0x06 {
+		return nil, fmt.Errorf("der: content type: %v", err)
+	}
+	ctx0, _, err := readTLV(rest)
+	if err != nil || ctx0.tag != 0xa0 {
+		return nil, fmt.Errorf("der: [0]: %v", err)
+	}
+	sd, _, err := readTLV(ctx0.body)
+	if err != nil || sd.tag != 0x30 {
+		return nil, fmt.Errorf("der: SignedData: %v", err)
+	}
+	ver, r1, err := readTLV(sd.body)
+	if err != nil {
+		return nil, err
+	}
+	algs, r2, err := readTLV(r1)
+	if err != nil {
+		return nil, err
+	}
+	eci, r3, err := readTLV(r2)
+	if err != nil || eci.tag != 0x30 {
+		return nil, fmt.Errorf("der: encapContentInfo: %v", err)
+	}
+	eoid, _, err := readTLV(eci.body)
+	if err != nil || eoid.tag != 0x06 {
+		return nil, fmt.Errorf("der: eContentType: %v", err)
+	}
+	newEci := encTLV(0x30, append(append([]byte{}, eoid.raw...), encTLV(0xa0, encTLV(0x04, content))...))
+	body := append(append(append([]byte{}, ver.raw...), algs.raw...), newEci...)
+	body = append(body, r3...)
+	newSd := encTLV(0x30, body)
+	return encTLV(0x30, append(append([]byte{}, oid.raw...), encTLV(0xa0, newSd)...)), nil
 }
